@@ -24,9 +24,26 @@
 #include <boost/gil/image_processing/convolve.hpp>
 #include <boost/gil/image_processing/numeric.hpp>
 
+#include <cstdint>
+#include <type_traits>
+
 namespace boost { namespace gil {
 
 namespace detail {
+
+/// The type in which a source channel is compared with a threshold, which has the channel type of the
+/// destination: wide enough for both, so that the comparison of 32 bit channels of different signedness does
+/// not convert the signed operand to unsigned (-1 > 0u).
+template <typename SourceChannelT, typename ResultChannelT>
+struct threshold_compare_type
+{
+    using type = typename std::conditional
+        <
+            std::is_integral<SourceChannelT>::value && std::is_integral<ResultChannelT>::value,
+            std::int64_t,
+            double
+        >::type;
+};
 
 template
 <
@@ -117,19 +134,20 @@ void threshold_binary(
     //deciding output channel type and creating functor
     using source_channel_t = typename channel_type<SrcView>::type;
     using result_channel_t = typename channel_type<DstView>::type;
+    using compare_t = typename detail::threshold_compare_type<source_channel_t, result_channel_t>::type;
 
     if (direction == threshold_direction::regular)
     {
         detail::threshold_impl<source_channel_t, result_channel_t>(src_view, dst_view,
             [threshold_value, max_value](source_channel_t px) -> result_channel_t {
-                return px > threshold_value ? max_value : result_channel_t(0);
+                return static_cast<compare_t>(px) > static_cast<compare_t>(threshold_value) ? max_value : result_channel_t(0);
             });
     }
     else
     {
         detail::threshold_impl<source_channel_t, result_channel_t>(src_view, dst_view,
             [threshold_value, max_value](source_channel_t px) -> result_channel_t {
-                return px > threshold_value ? result_channel_t(0) : max_value;
+                return static_cast<compare_t>(px) > static_cast<compare_t>(threshold_value) ? result_channel_t(0) : max_value;
             });
     }
 }
@@ -183,6 +201,7 @@ void threshold_truncate(
     //deciding output channel type and creating functor
     using source_channel_t = typename channel_type<SrcView>::type;
     using result_channel_t = typename channel_type<DstView>::type;
+    using compare_t = typename detail::threshold_compare_type<source_channel_t, result_channel_t>::type;
 
     std::function<result_channel_t(source_channel_t)> threshold_logic;
 
@@ -192,14 +211,14 @@ void threshold_truncate(
         {
             detail::threshold_impl<source_channel_t, result_channel_t>(src_view, dst_view,
                 [threshold_value](source_channel_t px) -> result_channel_t {
-                    return px > threshold_value ? threshold_value : static_cast<result_channel_t>(px);
+                    return static_cast<compare_t>(px) > static_cast<compare_t>(threshold_value) ? threshold_value : static_cast<result_channel_t>(px);
                 });
         }
         else
         {
             detail::threshold_impl<source_channel_t, result_channel_t>(src_view, dst_view,
                 [threshold_value](source_channel_t px) -> result_channel_t {
-                    return px > threshold_value ? static_cast<result_channel_t>(px) : threshold_value;
+                    return static_cast<compare_t>(px) > static_cast<compare_t>(threshold_value) ? static_cast<result_channel_t>(px) : threshold_value;
                 });
         }
     }
@@ -209,14 +228,14 @@ void threshold_truncate(
         {
             detail::threshold_impl<source_channel_t, result_channel_t>(src_view, dst_view,
                 [threshold_value](source_channel_t px) -> result_channel_t {
-                    return px > threshold_value ? static_cast<result_channel_t>(px) : result_channel_t(0);
+                    return static_cast<compare_t>(px) > static_cast<compare_t>(threshold_value) ? static_cast<result_channel_t>(px) : result_channel_t(0);
                 });
         }
         else
         {
             detail::threshold_impl<source_channel_t, result_channel_t>(src_view, dst_view,
                 [threshold_value](source_channel_t px) -> result_channel_t {
-                    return px > threshold_value ? result_channel_t(0) : static_cast<result_channel_t>(px);
+                    return static_cast<compare_t>(px) > static_cast<compare_t>(threshold_value) ? result_channel_t(0) : static_cast<result_channel_t>(px);
                 });
         }
     }
